@@ -109,7 +109,12 @@ def decide(gd, idx, cls):
                 band = analysis.DELTA * max(float(an.tmax[0]), 1.0) + analysis.eps_fp(v[0])
                 w = {"mode": mode, "problem": "'no solution' raised although the initial state's value is positive",
                      "value": str(v[0]), "value_float": float(v[0])}
-                if float(v[0]) <= band:
+                # the open finding is: the iteration stops with state 0 still at EXACTLY 0 (seen in the unpruned run, whose
+                # reachability phase is the same computation); a positive reported value that is then called 'no solution' is not it
+                unpruned = monitors.observed_solve(games.to_solver(gd), False, limit)
+                still_zero = unpruned.status == "ok" and unpruned.result[3][0] == 0
+                w["unpruned_reports"] = unpruned.result[3][0] if unpruned.status == "ok" else unpruned.status
+                if float(v[0]) <= band and still_zero:
                     known.append(w)
                 else:
                     problems.append(w)
